@@ -232,8 +232,9 @@ func (p *Program) RealFile(pos token.Pos) string {
 }
 
 // normaliseComparisons puts every comparison with exactly one constant operand into the form "value OP constant"
-// (nil != err becomes err != nil, 0 < n becomes n > 0): the rules read comparisons in that one form, and the operand
-// order of a comparison carries no meaning.
+// (nil != err becomes err != nil, 0 < n becomes n > 0), and a comparison of a length with a non-length into "value OP len(a)"
+// (len(a) > i becomes i < len(a)): the rules read comparisons in that one form, and the operand order of a comparison
+// carries no meaning.
 func normaliseComparisons(prog *ssa.Program) {
 	flip := map[token.Token]token.Token{token.EQL: token.EQL, token.NEQ: token.NEQ, token.LSS: token.GTR, token.GTR: token.LSS, token.LEQ: token.GEQ, token.GEQ: token.LEQ}
 	for fn := range ssautil.AllFunctions(prog) {
@@ -253,6 +254,19 @@ func normaliseComparisons(prog *ssa.Program) {
 				_, cx := bo.X.(*ssa.Const)
 				_, cy := bo.Y.(*ssa.Const)
 				if cx && !cy {
+					bo.X, bo.Y, bo.Op = bo.Y, bo.X, op
+					continue
+				}
+				// a length on the right: len(a) > i becomes i < len(a)
+				isLen := func(v ssa.Value) bool {
+					c, ok := v.(*ssa.Call)
+					if !ok {
+						return false
+					}
+					bi, ok := c.Call.Value.(*ssa.Builtin)
+					return ok && (bi.Name() == "len" || bi.Name() == "cap")
+				}
+				if isLen(bo.X) && !isLen(bo.Y) && !cy {
 					bo.X, bo.Y, bo.Op = bo.Y, bo.X, op
 				}
 			}
